@@ -23,7 +23,7 @@ PROPS = {
         "verus": [(U1, ["U1.next"]), (U5, ["C02.run.log", "U5.run"])],
     },
     "C02": {
-        "witness": ("w_server", ['w_c02_dispatch']),
+        "witness": ("w_server", ['w_c02_dispatch', 'w_c20_malformed']),
         "title": "Each client command reaches exactly the right shim callback, verbatim",
         "kani": [("k2_commands", ["k2_parse_text", "k2_parse_stmt", "k2_parse_other"])],
         "verus": [(U5, ["U5."])],
@@ -130,7 +130,7 @@ PROPS = {
         "verus": [(U1, ["C01.next.err", "C01.next.none"]), (U2, ["U2."]), (U3, ["U3."]), (U5, ["U5.", "C12.run", "C20.run", "C20.init"])],
     },
     "C20": {
-        "witness": ("w_server", ['w_c19_faults', 'w_c01_chunkings']),
+        "witness": ("w_server", ['w_c20_malformed', 'w_c19_faults', 'w_c01_chunkings']),
         "title": "No client byte sequence can crash or wedge a connection",
         "kani": [("k1_frames", None), ("k2_commands", None), ("k3_decode", ["k3_parse_fixed", "k3_parse_bytes", "k3_parse_temporal"])],
         "native": ["n1_packet"],
